@@ -1,13 +1,3 @@
 package main
 
-import (
-	"golang.org/x/tools/go/ssa"
-)
-
-
-
-func runLemmas(prog *Program, cs *ContractSet, pd *PropertyDef, tier string) []*Obligation { return nil }
-
-func (x *Exec) literalGlobal(fr *Frame, g *ssa.Global) (Val, bool) { return Val{}, false }
-
 var ghostLocs = map[string]func(env *SpecEnv, n ECall, src string) []LocSet{}
